@@ -35,7 +35,7 @@ ASSUMPTIONS = ['which operators are streaming is taken from the property text vi
                'two rows of look-ahead are legitimate (addfieldusingcontext, selectusingcontext, look overflow probe)']
 KS = [0, 1, 2, 5, 17]
 SHORT, LONG = 100, 10000
-REQUIRED = ['lazyarg-judged', 'construction-judged', 'prefix-judged', 'extractor-judged', 'composition-depth>=3', 'vis-judged', 'header-readers-judged']
+REQUIRED = ['extractor-over-compressed-source', 'lazyarg-judged', 'construction-judged', 'prefix-judged', 'extractor-judged', 'composition-depth>=3', 'vis-judged', 'header-readers-judged']
 
 _files = {}
 
@@ -93,6 +93,44 @@ class CountingByteSource(object):
             buf.close()
 
 
+class CountingCompressedSource(object):
+    """petl's own gzip / bz2 / zip source classes over a byte-counting file object"""
+
+    def __init__(self, kind, path, member=None):
+        self.kind, self.path, self.member = kind, path, member
+        self.opens = 0
+        self.bytes = [0]
+
+    @contextmanager
+    def open(self, mode='rb'):
+        from petl.io.sources import GzipSource, BZ2Source, ZipSource
+        self.opens += 1
+        buf = io.BufferedReader(CountingRaw(self.path, self.bytes))
+        inner = {'gz': lambda: GzipSource(buf), 'bz2': lambda: BZ2Source(buf), 'zip': lambda: ZipSource(buf, self.member)}[self.kind]()
+        try:
+            with inner.open(mode) as f:
+                yield f
+        finally:
+            buf.close()
+
+
+def _compress_all(d):
+    import bz2
+    import gzip
+    import zipfile
+    for key in list(_files):
+        p = _files[key]
+        with open(p, 'rb') as f:
+            data = f.read()
+        with gzip.open(p + '.gz', 'wb') as g:
+            g.write(data)
+        with bz2.BZ2File(p + '.bz2', 'wb') as g:
+            g.write(data)
+        for comp, tag in ((zipfile.ZIP_STORED, 'zips'), (zipfile.ZIP_DEFLATED, 'zipd')):
+            with zipfile.ZipFile(p + '.' + tag, 'w', comp) as z:
+                z.writestr('member', data)
+
+
 def setup(ctx):
     d = ctx.scratch
     for tag, nrows in (('small', 4000), ('big', 100000)):
@@ -124,6 +162,7 @@ def setup(ctx):
             for _ in range(nrows // 1000):
                 f.write(blob)
         _files['pickle-' + tag] = p
+    _compress_all(d)
 
 
 EXTRACTORS = {
@@ -137,11 +176,24 @@ EXTRACTORS = {
     'fromcsv-encoding': lambda s: petl.fromcsv(s, encoding='latin-1', errors='replace'),
     'fromcsv-dialect-args': lambda s: petl.fromcsv(s, delimiter=',', quotechar='"', skipinitialspace=True),
     'fromtsv-header': lambda s: petl.fromtsv(s, header=['a', 'b', 'c']),
+    'fromcsv.gz': lambda s: petl.fromcsv(s),
+    'fromcsv.bz2': lambda s: petl.fromcsv(s),
+    'fromcsv.zip-stored': lambda s: petl.fromcsv(s),
+    'fromcsv.zip-deflated': lambda s: petl.fromcsv(s),
+    'fromtext.gz': lambda s: petl.fromtext(s),
+    'fromtext.zip-deflated': lambda s: petl.fromtext(s, strip=False),
+    'frompickle.gz': lambda s: petl.frompickle(s),
+    'frompickle.zip-stored': lambda s: petl.frompickle(s),
+    'fromtsv.bz2+cut+head': lambda s: petl.head(petl.cut(petl.fromtsv(s), 'f0'), 20),
     'fromtext+capture+head': lambda s: petl.head(petl.capture(petl.fromtext(s, strip=False), 'lines', '(\\d+)', ['n']), 20),
     'frompickle': lambda s: petl.frompickle(s),
     'fromcsv+cut+select+head': lambda s: petl.head(petl.selectne(petl.cut(petl.fromcsv(s), 'f0', 'f2'), 'f0', 'zzz'), 30),
 }
-EXT_FILE = {'fromtext-strip-false': 'text', 'fromtext-strip-chars': 'text', 'fromtext-header': 'text', 'fromcsv-encoding': 'csv',
+EXT_COMPRESSION = {'fromcsv.gz': 'gz', 'fromcsv.bz2': 'bz2', 'fromcsv.zip-stored': 'zips', 'fromcsv.zip-deflated': 'zipd', 'fromtext.gz': 'gz',
+                   'fromtext.zip-deflated': 'zipd', 'frompickle.gz': 'gz', 'frompickle.zip-stored': 'zips', 'fromtsv.bz2+cut+head': 'bz2'}
+EXT_FILE = {'fromcsv.gz': 'csv', 'fromcsv.bz2': 'csv', 'fromcsv.zip-stored': 'csv', 'fromcsv.zip-deflated': 'csv', 'fromtext.gz': 'text',
+            'fromtext.zip-deflated': 'text', 'frompickle.gz': 'pickle', 'frompickle.zip-stored': 'pickle', 'fromtsv.bz2+cut+head': 'tsv',
+            'fromtext-strip-false': 'text', 'fromtext-strip-chars': 'text', 'fromtext-header': 'text', 'fromcsv-encoding': 'csv',
             'fromcsv-dialect-args': 'csv', 'fromtsv-header': 'tsv', 'fromtext+capture+head': 'text',
             'fromcsv': 'csv', 'fromcsv-header': 'csv', 'fromtsv': 'tsv', 'fromtext': 'text', 'frompickle': 'pickle', 'fromcsv+cut+select+head': 'csv'}
 
@@ -377,7 +429,12 @@ def _judge_extractor(case, ctx):
     kind = EXT_FILE[name]
     counts = {}
     for tag in ('small', 'big'):
-        s = CountingByteSource(_files['%s-%s' % (kind, tag)])
+        comp = EXT_COMPRESSION.get(name)
+        if comp is None:
+            s = CountingByteSource(_files['%s-%s' % (kind, tag)])
+        else:
+            ctx.seen('extractor-over-compressed-source')
+            s = CountingCompressedSource(comp[:3].rstrip('sd') if comp.startswith('zip') else comp, _files['%s-%s' % (kind, tag)] + '.' + comp, 'member')
         view = EXTRACTORS[name](s)
         if s.opens or s.bytes[0]:
             return {'kind': 'construction-opened-the-file', 'opens': s.opens, 'bytes': s.bytes[0]}
@@ -392,6 +449,13 @@ def _judge_extractor(case, ctx):
     ctx.seen('extractor-judged')
     if k >= 1:
         ctx.mark_nontrivial()
+        if EXT_COMPRESSION.get(name):
+            # the decompressors read ahead in their own buffers (gzip: 128 KiB + 8 KiB), and the small archive may be smaller than
+            # that: the claim is a constant bound on the big archive, far below its size
+            size = os.path.getsize(_files['%s-%s' % (kind, 'big')] + '.' + EXT_COMPRESSION[name])
+            if counts['big'][1] > 200000 or counts['big'][1] >= size:
+                return {'kind': 'read-more-than-a-constant-number-of-buffers-for-k-rows', 'k': k, 'counts': counts, 'archive-size': size}
+            return None
         if counts['small'] != counts['big']:
             return {'kind': 'bytes-read-depend-on-file-length', 'k': k, 'counts': counts}
         if counts['small'][1] > 65536:
